@@ -20,6 +20,7 @@ type MemSpec struct {
 	Disp    int64
 	HasDisp bool
 	NegForm bool // write the displacement as "-m" instead of "+d"
+	Label   string // write the address as this label ("[lbl]"); Disp is then only the expected value
 }
 
 type Opnd struct {
@@ -63,6 +64,9 @@ func (m MemSpec) text(sb *subs) string {
 		s = m.SizeKw + " "
 	}
 	s += "["
+	if m.Label != "" {
+		return s + m.Label + "]"
+	}
 	first := true
 	if m.Base != "" {
 		s += m.Base
